@@ -205,24 +205,24 @@ CacheOutOf(s) == IF s.out = "cache_hit" /\ Len(s.acts) = 1
 CacheReqOK(e) == \A i \in CacheIdx(e) : XC!Accepts(CacheKeyOf(e, i), CacheOutOf(e.seq[i]))
 \* G7 (observation): a request answered early (by a hit or by another flow) passes the response side of every selected flow; a
 \* WriteCache met there fails ("response not found"), the whole transaction ends with an error, the engine hands NO answer to the
-\* proxy and the request travels on to the provider.  Its response is then stored like that of any request that went on.
+\* proxy and the request travels on to the provider.  The request of an answered transaction is not kept for its response (the
+\* stream has become a response stream, APIStream.StoreRequest returns), so WriteCache finds no key for that response: it is not stored.
 CacheHdr == RCache[CHOOSE k \in DOMAIN RCache : TRUE]
+Remember(e, k) == [t \in DOMAIN open \cup {e.id} |-> IF t = e.id THEN k ELSE open[t]]
 CacheReqStep(e) ==
     IF CacheIdx(e) = {}
     \* G8 (observation): the caching flow's ReadCache was not consulted - its filter refused the request (a header / query-parameter
     \* constraint) or an earlier flow's processors came first - but the request goes on, and on the response side, where header and
     \* query constraints are not applied (C03 zone Z3), the flow is selected and WriteCache stores the response under the key of the
     \* stored request: it is served later to requests the filter accepts.  Modelled as it is: every request that goes on may be stored.
-    THEN IF DOMAIN RCache # {"-"} /\ (~AnsweredEarly(e.seq) \/ e.outcome = "error")
-         THEN /\ open' = [t \in DOMAIN open \cup {e.id} |-> IF t = e.id THEN <<HdrVal(e.x, CacheHdr)>> ELSE open[t]]
-              /\ UNCHANGED <<cnow, cands, held, cum, clast>>
+    THEN IF DOMAIN RCache # {"-"} /\ ~AnsweredEarly(e.seq)
+         THEN open' = Remember(e, <<HdrVal(e.x, CacheHdr)>>) /\ UNCHANGED <<cnow, cands, held, cum, clast>>
          ELSE UNCHANGED cvars
     ELSE LET i == CHOOSE j \in CacheIdx(e) : TRUE
              k == CacheKeyOf(e, i)
              o == CacheOutOf(e.seq[i])
-             goeson == o.kind = "miss" \/ e.outcome = "error"                       \* G7
          IN /\ held' = XC!HeldAfter(k, o)
-            /\ open' = IF goeson THEN [t \in DOMAIN open \cup {e.id} |-> IF t = e.id THEN k ELSE open[t]] ELSE open
+            /\ open' = IF ~AnsweredEarly(e.seq) THEN Remember(e, k) ELSE open
             /\ clast' = [ev |-> "req", id |-> e.id]
             /\ UNCHANGED <<cnow, cands, cum>>
 \* a response that WriteCache saw
